@@ -246,6 +246,13 @@ def cancellation_and_timeout(rep: Report, prog: Program) -> None:
     alias_is_class(rep, "R13.6", prog, "redress.errors", "AbortRetry", "AbortRetryError")
     rep.floor("R13.6", 1)
 
+    rep.rule("R13.7", "the abort predicate the caller passed is the one that is polled: `abort_if` reaches every delegate unchanged through all layers (decorator, sugar, policy, retry, runner) - not a copy, not a wrapper, not another layer's predicate (= the abort_if obligations of C12 R12.3)")
+    from .c12 import forwarding
+    from .common import RuleView
+
+    forwarding(RuleView(rep, "R13.7", keep=lambda key, msg: "abort_if" in key or "abort_if" in msg), prog)
+    rep.floor("R13.7", 100)
+
     rep.rule("R13.5", "_call_with_timeout re-raises what the worker raised unchanged, except the documented future-timeout -> TimeoutError mapping")
     fi = prog.func("redress.policy.runner.sync_core:_call_with_timeout")
     kinds = ("CancelledError", "KeyboardInterrupt", "SystemExit", "AbortRetryError", "OtherException", "TimeoutError")
@@ -260,15 +267,28 @@ def cancellation_and_timeout(rep: Report, prog: Program) -> None:
         return ()
 
     worker_pool(rep, "R13.5", prog, fi)
-    # an operation run inside a hand-made worker (thread target / closure): whatever catches its exceptions there
-    # must catch BaseException, or KeyboardInterrupt / SystemExit / CancelledError die in the worker
-    opname = fi.positional_params()[0] if fi.positional_params() else "func"
-    for sub_f in _nested(fi):
+    # an operation run inside a hand-made worker (the `target=` of a Thread: closure or module-level function): whatever
+    # catches its exceptions there must catch BaseException, or KeyboardInterrupt / SystemExit / CancelledError die in
+    # the worker instead of propagating unchanged
+    mod_funcs = [f for f in prog.funcs.values() if f.module is fi.module]
+    thread_targets: set[str] = set()
+    for f in mod_funcs:
+        for n in prog._own_nodes(f.node):
+            if isinstance(n, ast.Call) and ast.unparse(n.func).split(".")[-1] == "Thread":
+                for kw in n.keywords:
+                    if kw.arg == "target" and isinstance(kw.value, ast.Name):
+                        thread_targets.add(kw.value.id)
+    hand_made = False
+    for sub_f in mod_funcs:
+        if sub_f.name not in thread_targets and sub_f not in _nested(fi):
+            continue
+        callables = set(sub_f.param_names()) | set(fi.param_names())
         for n in ast.walk(sub_f.node):
-            if isinstance(n, ast.Try) and any(isinstance(c, ast.Call) and isinstance(c.func, ast.Name) and c.func.id == opname for b in n.body for c in ast.walk(b)):
+            if isinstance(n, ast.Try) and any(isinstance(c, ast.Call) and isinstance(c.func, ast.Name) and c.func.id in callables for b in n.body for c in ast.walk(b)):
+                hand_made = True
                 rep.instance("R13.5", f"{sub_f.qual}|worker-handler")
                 classes = [c for h in n.handlers for c in cfgs(prog).kinds.handler_classes(h.type, sub_f)]
-                if "BaseException" in classes:
+                if "BaseException" in classes or not n.handlers:
                     rep.ok("R13.5")
                 else:
                     rep.fail("R13.5", f"{sub_f.qual.split(':')[1]}|worker-drops-base-exceptions", f"{sub_f.qual}: the operation runs in a worker whose handler catches only {classes}: KeyboardInterrupt / SystemExit / CancelledError raised by the operation are lost in the worker instead of propagating unchanged", where=sub_f.where(n), function=sub_f.qual)
@@ -287,7 +307,8 @@ def cancellation_and_timeout(rep: Report, prog: Program) -> None:
             rep.ok("R13.5")
         else:
             rep.fail("R13.5", f"_call_with_timeout|{k}->{p.exit[1]}", f"_call_with_timeout turns {k} from the operation into {p.exit[1]}", where=fi.where(), function=fi.qual, path=p.describe())
-    if len(seen) < len(kinds):
+    if len(seen) < len(kinds) and not (hand_made and not seen):
+        # (with a hand-made worker there is no future.result() to follow: the worker-handler rule above decides)
         raise AnalysisError(f"R13.5: only kinds {sorted(seen)} explored")
 
 
